@@ -46,6 +46,7 @@ def replay(chk, cases, want, sets_of=None):
     ev = chk.ev
     n = 0
     benign_err = {}
+    events = []
     for c in cases:
         name = c["cls"]
         a = cmds.int_args(c["a"])
@@ -56,6 +57,7 @@ def replay(chk, cases, want, sets_of=None):
                 if cmds.opcode(name, s) is None:
                     continue     # the library's table for this set does not offer the command (C13/C16 territory)
                 cmd, exc, passed = cmds.construct(name, s, a, c["ph"])
+                events.append(cmds.event(name, s, a, c["ph"], cmd, exc, passed))
                 n += 1
                 ev.case((name, s, str(sorted(a.items()))), nontrivial=any(a.values()))
                 base = {"cls": name, "set": s, "args": a, "what": "MC_T10Cdb case"}
@@ -143,7 +145,7 @@ def replay(chk, cases, want, sets_of=None):
                     chk.violation(dict(base, clause="DecodeReportsEveryField", field=",".join(missing), detail={}),
                                   dedup=("DecodeReportsEveryField", name, ",".join(missing)))
     ev.replayed(n)
-    return n
+    return events
 
 
 def rand_args(rng, spec_case_by_class, name):
